@@ -13,7 +13,7 @@ RULE = ("active and passive peers with idle-hold 200-400 ms and connect-retry 30
         "behaves, an ended inbound session is followed by an immediate outbound attempt and a new inbound connection is "
         "accepted, a passive peer never dials; every manager history is replayed through the model. distinct = fault sequences.")
 ASSUMPTIONS = ["wall-clock slack 250 ms", "liveness assumes fair select and a network that delivers"]
-COQ_FILES = ["Model/Peer.v", "Proofs/PeerProofs.v", "Proofs/PeerCorollaries.v", "Props/C11.v"]
+COQ_FILES = ["Model/Peer.v", "Proofs/PeerProofs.v", "Proofs/PeerCorollaries.v", "Model/Dial.v", "Proofs/DialProofs.v", "Props/C11.v"]
 OPENM = S.frame(S.OPEN, S.open_body()).hex()
 KAM = S.frame(S.KEEPALIVE).hex()
 SLACK = 250
